@@ -309,7 +309,9 @@ def normalize_matrix3(matrix):
     i_row1 = next(i for i, row in enumerate(rows) if row[0] is not None)
     i_row2 = (i_row1 + 1) % 3
     i_row3 = (i_row2 + 1) % 3
-    row1 = rows[i_row1]
+    # the given vector fixes a direction; as typed (three or four digits) it
+    # is a unit vector only approximately
+    row1 = renorm(rows[i_row1])
     e_x = (1.0, 0.0, 0.0)
     e_y = (0.0, 1.0, 0.0)
     e_2 = e_y if abs(scal(row1, e_x)) > 0.999 else e_x
